@@ -7,6 +7,8 @@ the SAME machine as the TLC design model it abstracts):
                             on N points, any core set)
   dtree    DTreeIterInd.tla the level-order NodeIter queue machine of DTreeIntro.tla, over heap-numbered trees (any
                             prefix-closed set of heap numbers <= M, full or not)
+  emidx    EmIdx.tla        pointwise version of EmInd (one probe history cell, all variables unbounded integers): ALL nruns, maxit
+  lloydidx LloydIdx.tla     pointwise version of LloydInd: ALL nruns, maxit
   em       EmInd.tla        the EM outer loop / restart bookkeeping of X10Em.tla (any integer lower bounds / tolerance)
   lloyd    LloydInd.tla     the restart bookkeeping of X10Lloyd.tla (any stop decisions, any integer run inertias)
 
@@ -124,7 +126,7 @@ class CrossMismatch(Exception):
     pass
 
 
-def tlc_ok(ctx, module, cfg, tag, workers=3, what=""):
+def tlc_ok(ctx, module, cfg, tag, workers=2, what=""):
     rc, lines = vlib.tlc(ctx, module, cfg, workers=workers, tag=tag)
     if rc != 0:
         err = "; ".join(l for l in lines if l.startswith("Error") or "is violated" in l)[:400]
@@ -196,7 +198,9 @@ def density_cross(ctx, t):
                         "XC_DensityRef_teeth", r"Action property .* is violated", "Density noncore_extends does not refine DensityInd ok")
     res["teeth"] = hit.strip()
     for v in t.get("density_shared", []):
-        tlc_ok(ctx, "XC_DensityRef", {"spec": "DbSpec", "constants": density_ref_consts(c, v), "view": "ProjView", "properties": ["RefinesInd"]},
+        # (DoneAgrees here compares the two final relations where they are FALSE as well)
+        tlc_ok(ctx, "XC_DensityRef", {"spec": "DbSpec", "constants": density_ref_consts(c, v), "view": "ProjView", "invariants": ["DoneAgrees"],
+                                      "properties": ["RefinesInd"]},
                "XC_DensityRef_same_" + v, what="Density %s refines DensityInd %s" % (v, v))
         res.setdefault("shared_variants_refine", []).append(v)
     return res
@@ -328,6 +332,37 @@ def lloyd_reach(ctx, variant, t):
     return "tlc R=I=3: " + hit.strip()
 
 
+
+# ---------------------------------------------------------------------------------------------- targets: emidx, lloydidx
+# pointwise (one probe history cell) versions of EmInd / LloydInd: every variable an unbounded Int, no constant bounds
+# the model => the consecution run holds for ALL nruns / maxit.  Same variant names as em / lloyd.
+def emidx_obs(variant, _size, only=None):
+    return std_obs("emidx", "EmIdx", variant, {}, "all",
+                   "ALL nruns >= 1, maxit >= 1, every tolerance, every sequence of integer lower bounds, every probe run s >= 1 (unbounded integers)", only)
+
+
+def lloydidx_obs(variant, _size, only=None):
+    return std_obs("lloydidx", "LloydIdx", variant, {}, "all",
+                   "ALL nruns >= 1, maxit >= 1, every sequence of stop decisions and integer run inertias, every probe run s >= 1 (unbounded integers)", only)
+
+
+def idx_cross(module, init, teeth_variant):
+    def cross(ctx, t):
+        res = dict(projection=[])
+        for RI in t["idx_tlc"]:
+            consts = {"R": str(RI), "I": str(RI), "Variant": q("ok"), "IdxVariant": q("ok")}
+            lines, d = tlc_ok(ctx, module, {"init": init, "next": "TNext", "constants": consts, "invariants": ["IdxInv", "IdxSaysInd"],
+                                            "properties": ["IdxRefines"]}, "%s_R%d" % (module, RI),
+                              what="the array model refines the pointwise model for every probe")
+            res["projection"].append(dict(R=RI, I=RI, distinct_states=d, refines_for_every_probe=True, IndInv_and_Safety_hold=True,
+                                          pointwise_gives_quantified=True))
+        consts = {"R": "3", "I": "3", "Variant": q("ok"), "IdxVariant": q(teeth_variant)}
+        res["teeth"] = tlc_must_fail(ctx, module, {"init": init, "next": "TNext", "constants": consts, "properties": ["IdxRefines"]},
+                                     module + "_teeth", r"Action property .* is violated", "array model ok does not refine pointwise model " + teeth_variant).strip()
+        return res
+    return cross
+
+
 # ---------------------------------------------------------------------------------------------- registry
 TARGETS = {
     "density": dict(variants=DENSITY_VARIANTS, obs=density_obs, cross=density_cross, reach=density_reach,
@@ -336,27 +371,31 @@ TARGETS = {
                   sens_size=7, module="DTreeIterInd"),
     "em": dict(variants=EM_VARIANTS, obs=em_obs, cross=em_cross, reach=em_reach, sens_size=3, module="EmInd"),
     "lloyd": dict(variants=LLOYD_VARIANTS, obs=lloyd_obs, cross=lloyd_cross, reach=lloyd_reach, sens_size=3, module="LloydInd"),
+    "emidx": dict(variants=EM_VARIANTS, obs=emidx_obs, cross=idx_cross("XC_EmIdx", "TInit", "last_best"), reach=None, sens_size=0, module="EmIdx"),
+    "lloydidx": dict(variants=LLOYD_VARIANTS, obs=lloydidx_obs, cross=idx_cross("XC_LloydIdx", "Init", "lloyd_last_best"), reach=None,
+                     sens_size=0, module="LloydIdx"),
 }
 
 TIER = {
     "quick": dict(
         density=[3, 4],
         density_ref=[dict(Lattices="{103}", N=4, MinPtsSet="{2, 3}", EpsSet="{11, 21, 32}", emit=True),
-                     dict(Lattices="{201}", N=4, MinPtsSet="{2, 3}", EpsSet="{11, 32}", emit=True),
                      dict(Lattices="{103}", N=5, MinPtsSet="{3, 4}", EpsSet="{11, 32}")],
         density_ind_tlc=[3, 4],
         density_teeth=dict(Lattices="{103}", N=5, MinPtsSet="{3, 4}", EpsSet="{11, 32}"),
         density_shared=["noncore_extends"],
         dtree=[7],
         em=[3, 5], em_ref=[dict(MaxIt=3, MaxRuns=3)],
+        emidx=[0], lloydidx=[0], idx_tlc=[3],
         lloyd=[3, 5], lloyd_ind_tlc=[3],
         lloyd_ref=[dict(ScaleKind=1, MGrid=2, MN=3, MK=2, MIt=3, MRuns=2, MTols="{101, 102, 130}")],
         dtree_ref=[dict(MaxN=3, MaxV=2, MaxK=2, MaxD=1, Mws="{8}", Mwl="{4}", Mid="{10}"),
                    dict(MaxN=3, MaxV=1, MaxK=2, MaxD=2, Mws="{8}", Mwl="{4}", Mid="{10}")],
-        par=6, apa_timeout=200),
+        par=5, apa_timeout=240),
     "thorough": dict(
         density=[1, 2, 3, 4, 5, 6],
         density_ref=[dict(Lattices="{103}", N=4, MinPtsSet="{2, 3}", EpsSet="{11, 21, 32}", emit=True),
+                     dict(Lattices="{201}", N=4, MinPtsSet="{2, 3}", EpsSet="{11, 32}", emit=True),
                      dict(Lattices="{202}", N=4, MinPtsSet="{2, 3, 4}", EpsSet="{11, 32, 21, 52}", emit=True),
                      dict(Lattices="{104}", N=5, MinPtsSet="{2, 3, 4}", EpsSet="{11, 32, 21}", emit=True),
                      dict(Lattices="{201}", N=5, MinPtsSet="{2, 3, 4}", EpsSet="{11, 32}", emit=True),
@@ -365,6 +404,7 @@ TIER = {
         density_teeth=dict(Lattices="{103}", N=5, MinPtsSet="{3, 4}", EpsSet="{11, 32}"),
         density_shared=DENSITY_SHARED,
         dtree=[1, 3, 7, 15, 31],
+        emidx=[0], lloydidx=[0], idx_tlc=[3, 4],
         em=[1, 2, 3, 5, 8, 12], em_ref=[dict(MaxIt=3, MaxRuns=3), dict(MaxIt=4, MaxRuns=3)],
         lloyd=[1, 2, 3, 5, 8, 12], lloyd_ind_tlc=[3, 4],
         lloyd_ref=[dict(ScaleKind=1, MGrid=2, MN=3, MK=2, MIt=3, MRuns=2, MTols="{101, 102, 130}"),
@@ -377,11 +417,8 @@ TIER = {
 }
 
 
-def target_of_variant(v):
-    for name, tg in TARGETS.items():
-        if v in tg["variants"]:
-            return name
-    return None
+def targets_of_variant(v):
+    return [name for name, tg in TARGETS.items() if v in tg["variants"]]
 
 
 # ---------------------------------------------------------------------------------------------- run
@@ -396,12 +433,12 @@ def violation(ctx, ob):
 def run(ctx):
     t = TIER[ctx.tier]
     variant = variant_of(ctx)
-    vt = None
+    vt = []
     if variant != "ok":
-        vt = target_of_variant(variant)
-        if vt is None:
+        vt = targets_of_variant(variant)
+        if not vt:
             raise vlib.ToolError("unknown X08 variant %r" % variant)
-        vlib.log("running the MAIN obligations of target %s on the seeded design bug Variant = %s (expect VIOLATION)" % (vt, variant))
+        vlib.log("running the MAIN obligations of target(s) %s on the seeded design bug Variant = %s (expect VIOLATION)" % (vt, variant))
         # a run on a deliberately broken model never touches evidence/ or replays/
         vlib.EVID = ctx.work
         vlib.REPLAYS = os.path.join(ctx.work, "replays")
@@ -410,10 +447,10 @@ def run(ctx):
     for name, tg in TARGETS.items():
         if name not in t:
             continue
-        if vt and vt != name:
+        if vt and name not in vt:
             continue
         for size in t[name]:
-            main += tg["obs"](variant if vt == name else "ok", size)
+            main += tg["obs"](variant if name in vt else "ok", size)
         if variant == "ok":
             for v in tg["variants"]:
                 sens += tg["obs"](v, tg["sens_size"], only=["step"])
@@ -428,7 +465,8 @@ def run(ctx):
                     if name in t:
                         xc[name] = tg["cross"](ctx, t)
                         for v in tg["variants"]:
-                            reach[v] = tg["reach"](ctx, v, t)
+                            if tg["reach"]:
+                                reach[v] = tg["reach"](ctx, v, t)
             except CrossMismatch as e:
                 xc_err = str(e)
         for f in futs:
@@ -459,9 +497,10 @@ def run(ctx):
         v = o["consts"]["Variant"].strip('"')
         if o["status"] in ("timeout", "error"):
             raise vlib.ToolError("sensitivity obligation %s not decided: %s\n%s" % (o["name"], o["status"], o.get("tail", "")))
-        sens_res[v] = (["%s: %s" % (o["name"], o.get("violated", ""))] if o["status"] == "counterexample" else [])
-        if v in reach and sens_res[v]:
-            sens_res[v].append(reach[v])
+        key = "%s/%s" % (o["module"], v)
+        sens_res[key] = (["%s: %s" % (o["name"], o.get("violated", ""))] if o["status"] == "counterexample" else [])
+        if v in reach and sens_res[key]:
+            sens_res[key].append(reach[v])
     missed = [k for k, v in sens_res.items() if not v]
     if missed:
         raise vlib.ToolError("seeded design bug(s) %s break no obligation: the inductive invariants are too weak" % missed)
